@@ -31,7 +31,7 @@ def build_cases(chk):
         n = 120
     else:
         cases = list(b)
-        n = 4000
+        n = 6000
     cases += [scen_proc.gen_case(rng, chk.tier) for _ in range(n)]
     cases += [scen_proc.heavy_log_case(rng, sig) for sig in ([9, 15] if chk.tier == 'quick' else [9, 15, 10, 1] * 5)]
     cases += [scen_proc.random_kill_case(rng, chk.tier) for _ in range(40 if chk.tier == 'quick' else 1200)]
